@@ -38,7 +38,7 @@ P = {
  'C12': dict(level='exploration', ref='3/C12', tech='run-time contract of compute_SCCs (partition + mutual reachability) over all digraphs <=4 nodes; body not within deductive reach',
    text=B + 'every digraph with <=4 nodes under several insertion orders, sampled 5-node, random <=12 nodes; oracle = closure-based mutual reachability.', note='compute_SCCs body is not proved (iterative Nuutila variant with suspended iterators)'),
  'C13': dict(level='proof', ref='3/C13', tech='contract-based deductive verification: pyvc (AST->VC generator over the real source of graph.py, heap model, sidecar contracts and loop invariants) discharged by z3; bounded run-time contracts as cross-check',
-   text='Every obligation of the 12 DiGraph functions under contract (constructor, add_node/add_edge, accessors, clone, get_subgraph, get_reversed_graph, get_reachable_set_from: functional postconditions over the whole view (V,E), raises-iff, frames, freshness, least-fixpoint characterisation of reachability) is generated from the current source and discharged for all graphs and all iteration orders; plus the bounded stand-in (all digraphs <=3/4 nodes). If an obligation is not discharged the run is not reported as proof.' + B[:0], note='Python semantics assumed by the VC encoding (E1-E6, DESIGN.md 2.2); z3 and the pyvc generator are trusted (vacuity probes, planted defects, bounded stand-in as cross-check); termination not proved.'),
+   text='Every obligation of the 12 DiGraph functions under contract (constructor, add_node/add_edge, accessors, clone, get_subgraph, get_reversed_graph, get_reachable_set_from - the latter also for an argument that is a set object aliasing a set of the caller or of the graph itself: functional postconditions over the whole view (V,E), raises-iff, frames, freshness, least-fixpoint characterisation of reachability) is generated from the current source and discharged for all graphs and all iteration orders; plus the bounded stand-in (all digraphs <=3/4 nodes). If an obligation is not discharged the run is not reported as proof.' + B[:0], note='Python semantics assumed by the VC encoding (E1-E6, DESIGN.md 2.2); z3 and the pyvc generator are trusted (vacuity probes, planted defects, bounded stand-in as cross-check); termination not proved.'),
  'C14': dict(level='proof', ref='3/C14', tech='contract-based deductive verification: pyvc + z3 on kripke.py (constructor incl. raises-iff-not-total, labels/next/states/transitions, clone, get_substructure) over the graph.py contracts; bounded run-time contracts as cross-check',
    text='Every obligation of the 8 Kripke functions under contract is generated from the current source and discharged for all argument combinations (optional S/S0/R/L, L possibly not a dict, non-iterable label values) and all subsets; callee contracts of graph.py are re-verified in the same run. Bounded stand-in: relations on <=3 states x argument shapes x all subsets.' + B[:0], note='Python semantics assumed by the VC encoding (E1-E6, DESIGN.md 2.2); z3 and the pyvc generator are trusted (vacuity probes, planted defects, bounded stand-in as cross-check); termination not proved. compute_SCCs is not involved.'),
  'C15': dict(level='exploration', ref='3/C15', tech='frame and safety obligations (pyvc + z3) of is_a_fair_SCC, get_fair_states, label_fair_states and CTL.modelcheck with F ("no call raises an internal error or modifies K"); what is computed: run-time contracts against CGP fair semantics (Emerson-Lei reference), known findings attributed through defect models (bounded)',
